@@ -99,7 +99,7 @@ func opnResponseBody(handle, chID, tokID uint32, nonce []byte, status ua.StatusC
 	h.RequestHandle = handle
 	h.ServiceResult = status
 	return mustBody(&ua.OpenSecureChannelResponse{ResponseHeader: h,
-		SecurityToken: &ua.ChannelSecurityToken{ChannelID: chID, TokenID: tokID, CreatedAt: time.Unix(1_700_000_000, 0).UTC(), RevisedLifetime: 3600_000}, ServerNonce: nonce})
+		SecurityToken: &ua.ChannelSecurityToken{ChannelID: chID, TokenID: tokID, CreatedAt: time.Now().UTC(), RevisedLifetime: 3600_000}, ServerNonce: nonce})
 }
 
 // genBody draws the bytes after the sequence header.
